@@ -6,5 +6,6 @@ namespace Driver
 def registry : List Suite := [
   Suites.Blocks.suite,
   Suites.Registry.suite,
+  Suites.Registry.suiteConcurrent,
 ]
 end Driver
